@@ -130,6 +130,25 @@ def run(tier):
                     port_fns.add(name)
         if len(port_fns) < 20:
             rep.broke('only %d functions found in lltdPort.h' % len(port_fns))
+        # functions whose address the core takes (any use of a function name that is not the callee of a direct call): a call
+        # through a pointer can only reach one of those (the port's own slots aside), so it is as good as the direct calls
+        taken = {}
+        for ix in prog.index.values():
+            for fname, fn in ix.functions.items():
+                if not (fn.get('_file') or '').startswith(os.path.join(REPO, 'lltdResponder') + '/'):
+                    continue
+                direct = set()
+                for n in facts.walk(fn):
+                    if n.get('kind') == 'CallExpr' and n.get('inner'):
+                        c_ = n['inner'][0]
+                        while c_.get('kind') in ('ImplicitCastExpr', 'ParenExpr'):
+                            c_ = c_['inner'][0]
+                        if c_.get('kind') == 'DeclRefExpr':
+                            direct.add(c_.get('id'))
+                for n in facts.walk(fn):
+                    if n.get('kind') == 'DeclRefExpr' and (n.get('referencedDecl') or {}).get('kind') == 'FunctionDecl' and n.get('id') not in direct:
+                        taken.setdefault(n['referencedDecl']['name'], (fname, n))
+        foreign_taken = sorted(t_ for t_ in taken if t_ not in core_defs and t_ not in port_fns)
         for ix in prog.index.values():
             for fname, fn in ix.functions.items():
                 if not (fn.get('_file') or '').startswith(os.path.join(REPO, 'lltdResponder') + '/'):
@@ -154,8 +173,11 @@ def run(tier):
                                   node=n, function=fname,
                                   sample={'indirect_call': callee.get('name'), 'in': fname})
                     else:
-                        rep.fail('R20.b', '%s|%s|indirect' % (rel(ix.unit.abspath), fname),
-                                 'unresolvable indirect call in core function ' + fname, node=n, function=fname)
+                        # through a pointer value (a local table of handlers): fine when every function whose address the
+                        # core takes is a core or port function
+                        rep.check(not foreign_taken, 'R20.b', '%s|%s|indirect' % (rel(ix.unit.abspath), fname),
+                                  'indirect call in core function %s, and the core takes the address of %s, which is neither defined in the core nor declared in lltdPort.h'
+                                  % (fname, foreign_taken), node=n, function=fname)
     rep.analysed['port_functions'] = sorted(port_fns)
 
     # ---- (a) symbol closure ---------------------------------------------------------
